@@ -258,3 +258,49 @@ SPECS["C12"] = {
     "outside": ["labels longer than the bound or with characters outside [A-Za-z0-9._+-]", "utf-16 prefixed labels other than the five listed", "more than one declaration", "declarations beyond the header"],
     "assumptions": [],
 }
+
+SPECS["C02"] = {
+    "explanation": "Structure of results on the real tree for every verdict vector (C03 harness: parameters only on the three text types, bare ancestors, chain rooted at "
+                   "application/octet-stream, errMIME on errors via C05), and the format->parse round trip: an HTML/XML declaration or plain header carrying k arbitrary bytes "
+                   "(full alphabet) goes through the real FromHTML/FromXML/FromPlain, the real match/clone with mime.FormatMediaType and back through mime.ParseMediaType, all executed symbolically.",
+    "units": [
+        {"name": "format", "pkg": "mimetype", "harnesses": ["HC02Format"], "quick_args": fix(labelLen=1), "thorough_args": fix(labelLen=2), "quick_shards": 48, "thorough_shards": 64},
+        {"name": "format0", "pkg": "mimetype", "harnesses": ["HC02Format"], "quick_args": fix(labelLen=0), "thorough_args": fix(labelLen=0), "quick_shards": 4, "thorough_shards": 4},
+        {"name": "registered", "pkg": "mimetype", "harnesses": ["HC02Registered"], "quick_shards": 1, "thorough_shards": 1},
+        {"name": "walk", "pkg": "mimetype", "harnesses": ["HC03Walk"], "quick_args": fix(tier=0, extends=0), "thorough_args": fix(tier=0, extends=0), "quick_shards": 16, "thorough_shards": 16},
+    ],
+    "must_reach": ["end", "assert:format:string-parses", "assert:format:registered-type", "assert:format:only-charset-parameter", "assert:registered-type-is-bare-media-type", "assert:parameter-only-on-text-types", "assert:chain-ends-at-octet-stream"],
+    "bounds": {"quick": {"label": "0 and 1 arbitrary bytes in 5 carriers"}, "thorough": {"label": "0 and 2 arbitrary bytes"}},
+    "outside": ["labels longer than the bound", "carriers other than the five templates"],
+    "assumptions": [],
+}
+
+SPECS["C15"] = {
+    "explanation": "The real (*MIME).Is, EqualsAny and Lookup with mime.ParseMediaType executed symbolically: every registered type and alias in decorated spellings "
+                   "(3 case variants, 0..2 symbolic whitespace bytes on each side, optional plain or quoted parameter with symbolic token bytes), and one-byte substitutions.",
+    "units": [
+        {"name": "decorated", "pkg": "mimetype", "harnesses": ["HC15Decorated"], "quick_shards": 32, "thorough_shards": 32},
+        {"name": "substituted", "pkg": "mimetype", "harnesses": ["HC15Substituted"], "quick_shards": 48, "thorough_shards": 64},
+        {"name": "results", "pkg": "mimetype", "harnesses": ["HC02Format"], "quick_args": fix(labelLen=1), "thorough_args": fix(labelLen=1), "quick_shards": 32, "thorough_shards": 32},
+    ],
+    "must_reach": ["end", "assert:is-ignores-decoration", "assert:equalsany-ignores-decoration", "assert:is-only-for-type-or-alias", "assert:format:is-own-string", "assert:format:lookup-bare-type-is-result"],
+    "bounds": {"quick": {"names": "all 258 registered names x 8 decoration shapes; one-byte substitution at every position of every name"}, "thorough": {"names": "as quick"}},
+    "outside": ["parameter lists longer than one parameter", "whitespace runs longer than two bytes", "substituted bytes outside token characters and '/'"],
+    "assumptions": [],
+}
+
+SPECS["C06"] = {
+    "explanation": "Data-race freedom is decided as a schedule-independent lock discipline on the real code: for every ordered pair of public operations, run as two logical "
+                   "threads by the single-threaded executor, every access to a cell not owned by the running thread is logged with the lock set (sync.RWMutex bookkeeping), "
+                   "atomicity and ownership (objects between sync.Pool Get and Put); two accesses of different threads to one cell, one a write, must be both atomic or share a "
+                   "lock that one side holds exclusively. Interleavings are not enumerated; a violation is replayed natively under the Go race detector.",
+    "units": [
+        {"name": "pairs", "pkg": "mimetype", "harnesses": ["HC06Pairs"], "args": ["-c06"], "quick_shards": 48, "thorough_shards": 64},
+    ],
+    "must_reach": ["end"],
+    "bounds": {"quick": {"pairs": "all 81 ordered pairs of 9 operations x 5 concrete inputs x alias slice len 0..2, spare capacity 0..1; one prior Extend"}},
+    "outside": ["more than two concurrent operations interacting (argued pairwise)", "the Go memory model below the data-race-free guarantee", "internals of sync (stubbed)",
+                "linearizability of each result w.r.t. a single instant (only per-resource: one atomic load of the limit, one RLock section for the tree)"],
+    "assumptions": ["sync.Pool gives exclusive ownership between Get and Put", "sync.RWMutex semantics"],
+    "stubs": ["(*sync.RWMutex).Lock/Unlock/RLock/RUnlock (bookkeeping only)", "(*sync.Pool).Get/Put"],
+}
